@@ -90,13 +90,24 @@ def show(v, oids):
     return wire.encs(v, oids)
 
 
+def show_safe(v, oids):
+    """for replay files: never raises"""
+    try:
+        return show(v, oids)
+    except (RecursionError, wire.Unencodable):
+        return '<a value that cannot be rendered: cyclic or outside the wire format>'
+
+
 def same(a, b):
     """two python outcomes of different entry points agree: both raise (the entry points wrap
     their errors differently), or equal lists (dict == ignores key order, which only the find
     projection changes)"""
     if isinstance(a, Exception) or isinstance(b, Exception):
         return isinstance(a, Exception) and isinstance(b, Exception)
-    return a == b
+    try:
+        return a == b
+    except RecursionError:
+        return False          # a cyclic document on one side
 
 
 def case_line(case, oids):
@@ -188,6 +199,34 @@ def direct_oracles(ctx, case, db, stats):
         name = 'project=find projection'
         got = agg(coll, [{'$project': opts}])
         want = attempt(lambda: list(coll.find({}, copy.deepcopy(opts))))
+    elif op in ('$addFields', '$set') and isinstance(opts, dict) and len(opts) >= 2 and \
+            all(isinstance(k, str) and k and '.' not in k and not k.startswith('$') for k in opts):
+        # every entry is evaluated against the document that ENTERED the stage: the stage equals
+        # the merge of its entries run one at a time on the same input
+        name = 'addFields=merge of single entries'
+        got = agg(coll, [{op: opts}])
+        base = attempt(lambda: list(coll.find()))
+        singles = [(k, agg(coll, [{op: {k: copy.deepcopy(v)}}])) for k, v in opts.items()]
+        if isinstance(got, Exception) or isinstance(base, Exception) or \
+                any(isinstance(r, Exception) for _, r in singles):
+            # an entry that raises alone must make the stage raise, and vice versa
+            want = got if (isinstance(got, Exception) and
+                           any(isinstance(r, Exception) for _, r in singles)) else \
+                (Exception('some entry raises alone') if not isinstance(got, Exception) else
+                 Exception('the stage raises, no entry does alone'))
+            if isinstance(got, Exception) and any(isinstance(r, Exception) for _, r in singles):
+                stats[name] += 1
+                return
+        else:
+            want = []
+            for j, d in enumerate(base):
+                m = copy.deepcopy(d)
+                for k, outs in singles:
+                    if k in outs[j]:
+                        m[k] = copy.deepcopy(outs[j][k])
+                    elif k in m:
+                        del m[k]
+                want.append(m)
     if name is None:
         return
     stats[name] += 1
@@ -195,7 +234,7 @@ def direct_oracles(ctx, case, db, stats):
         oids = wire.Oids()
         ctx.violation(render(case, kind='the aggregation stage disagrees with the find path: '
                              + name, stage=wire.pretty({op: opts}),
-                             aggregate=show(got, oids), find=show(want, oids)),
+                             aggregate=show_safe(got, oids), find=show_safe(want, oids)),
                       rank=100 + len(repr(opts)) + len(repr(docs)))
 
 
@@ -239,7 +278,7 @@ def group_lookup_oracles(ctx, case, db, stats):
             oids = wire.Oids()
             ctx.violation(render(dict(case, pipeline=pipeline), kind='$group does not partition '
                                  'its input by key value (each group = the documents of that key '
-                                 'in input order, counted once)', got=show(got, oids),
+                                 'in input order, counted once)', got=show_safe(got, oids),
                                  expected_groups=[[list(k), v] for k, v in want.items()]),
                           rank=150 + len(repr(docs)))
     if op == '$lookup' and all(isinstance(opts.get(x), str) for x in
@@ -273,7 +312,7 @@ def group_lookup_oracles(ctx, case, db, stats):
             ctx.violation(render(dict(case, pipeline=pipeline), kind='$lookup does not attach '
                                  'exactly the foreign documents whose join field equals the local '
                                  'one (all other fields unchanged, one output per input)',
-                                 got=show(got, oids), expected=show(want, oids)),
+                                 got=show_safe(got, oids), expected=show_safe(want, oids)),
                           rank=150 + len(repr(docs)))
 
 
@@ -318,8 +357,8 @@ def prefix_law(ctx, case, db, full, rng, stats):
             oids = wire.Oids()
             ctx.violation(render(case, kind='prefix law broken: aggregate(p ++ q) differs from '
                                  'the stages q run on an independent copy of the output of '
-                                 'aggregate(p)', split=k, whole=show(full, oids),
-                                 staged=show(rest, oids) if not isinstance(rest, Exception)
+                                 'aggregate(p)', split=k, whole=show_safe(full, oids),
+                                 staged=show_safe(rest, oids) if not isinstance(rest, Exception)
                                  else repr(rest)),
                           rank=200 + len(repr(p)) + len(repr(case['docs'])))
         return
@@ -341,7 +380,7 @@ def prefix_law(ctx, case, db, full, rng, stats):
         oids = wire.Oids()
         ctx.violation(render(case, kind='prefix law broken: aggregate(p ++ q) differs from '
                              'aggregate(q) over the stored output of aggregate(p)', split=k,
-                             whole=show(full, oids), staged=show(rest, oids)),
+                             whole=show_safe(full, oids), staged=show_safe(rest, oids)),
                       rank=200 + len(repr(p)) + len(repr(case['docs'])))
 
 
@@ -419,8 +458,11 @@ def run_cases(ctx, cases, judge, rng, stats, oracles=True):
             judge.zone['unencodable'] += 1
             continue
         if oracles:
-            direct_oracles(ctx, c, db, stats)
-            group_lookup_oracles(ctx, c, db, stats)
+            for orc in (direct_oracles, group_lookup_oracles):
+                try:
+                    orc(ctx, c, db, stats)
+                except RecursionError:
+                    stats['oracle skipped: cyclic value'] += 1
         c['_db'], c['_full'] = db, full
         lines.append(line)
         kept.append(c)
@@ -432,7 +474,10 @@ def run_cases(ctx, cases, judge, rng, stats, oracles=True):
         c['impl'], c['spec'], c['reasons'] = impl, spec, reasons
         judge.judge(c, c['py'], impl, spec, reasons)
         if oracles and not impl.startswith('!?'):
-            prefix_law(ctx, c, c['_db'], c['_full'], rng, stats)
+            try:
+                prefix_law(ctx, c, c['_db'], c['_full'], rng, stats)
+            except RecursionError:
+                stats['oracle skipped: cyclic value'] += 1
         c.pop('_db', None)
         c.pop('_full', None)
     return kept
